@@ -1,11 +1,104 @@
-"""C14 - existing private keys and CSRs are reused, never replaced or invented."""
-from . import repo
+"""C14 - existing private keys and CSRs are reused, never replaced or invented.
+
+Two parts. (1) Repo.tla: TLC checks the action property KeysKept, and the bounded exploration of the real
+code carries key identity in every trace line (see vlib/repo.py). (2) A concrete sweep of histories
+(`driver gen` with steps) judged by KeyJudge.tla: every key type x key origin (made by gopki, standard
+PKCS#8, PKCS#8 with the curve repeated inside ECPrivateKey, PKCS#8 without AlgorithmIdentifier parameters,
+hand-built brainpool PKCS#8, request-based) x regenerations triggered by each reason in turn, including a
+changed keyAlgorithm in the configuration (same and other key family), for leaves, and for issuers whose
+children must keep verifying."""
+import json, random
+from .certgen import *
+from . import repo, genjudge
+from .common import read_ndjson
 
 ASSUME = ["key identity = the public key derived independently from the PKCS#8 / request / certificate bytes",
           "projection (internal/project, internal/ecv) is trusted"]
 
 
+def sweep_cases(ctx):
+    r = random.Random(ctx.seed)
+    out = []
+    ec = EC_KEYS
+    keys = ec + (["RSA-1024"] if ctx.quick else ["RSA-1024", "RSA-2048"])
+    origins = ["gopki", "stdlib", "embedded-curve", "no-algid-params"]
+
+    def sig_for(k):
+        return "RSAwithSHA256" if k.startswith("RSA") else "ECDSAwithSHA256"
+
+    def cfgs(k, content=0, keyalg="same", issuer_key="P-256"):
+        ka = {"same": k, "none": None, "other-same-family": ("P-384" if not k.startswith("RSA") and k != "P-384" else ("P-256" if not k.startswith("RSA") else "RSA-2048")),
+              "other-family": ("RSA-1024" if not k.startswith("RSA") else "P-256")}[keyalg]
+        ca = cfg("CN=Key CA", keyAlgorithm=issuer_key, signatureAlgorithm=sig_for(issuer_key))
+        mid = cfg("CN=Mid v%d, O=Keys" % content, issuer="ca", keyAlgorithm=ka, signatureAlgorithm=sig_for(issuer_key),
+                  extensions=[{"basicConstraints": {"critical": True, "content": {"ca": True}}}])
+        # the leaf is signed by mid's key: its signature algorithm follows mid's REAL key (k), whatever mid's config says now
+        leaf = cfg("CN=Leaf", issuer="mid", signatureAlgorithm=sig_for(k))
+        return ca, mid, leaf
+
+    for k in keys:
+        for origin in origins:
+            if origin in ("embedded-curve", "no-algid-params") and k.startswith("RSA"):
+                continue
+            if origin == "stdlib" and k.startswith("brainpool"):
+                origin_make = {"kind": "key", "key": k, "variant": ""}          # hand-built brainpool PKCS#8 (package ecv)
+            elif origin == "gopki":
+                origin_make = None
+            else:
+                origin_make = {"kind": "key", "key": k, "variant": "" if origin == "stdlib" else origin}
+            for issuer_key in (["P-256"] if ctx.quick else ["P-256", "RSA-1024", "brainpoolP256r1"]):
+                ca, mid, leaf = cfgs(k, 0, issuer_key=issuer_key)
+                files = [("ca.yaml", ca), ("sub/mid.yaml", mid), ("sub/leaf.yaml", leaf)]
+                c = case(len(out) + 1, files, tag={"prop": "C14", "class": "%s/%s under %s" % (k, origin, issuer_key), "firstMustSucceed": True})
+                if origin_make:
+                    c["files"].append({"path": "sub/mid.pem", "make": origin_make})
+                steps = []
+                # each regeneration reason in turn; keyAlgorithm changes in the middle
+                _, mid1, _ = cfgs(k, 1, issuer_key=issuer_key)
+                steps.append({"put": [{"path": "sub/mid.yaml", "text": json.dumps(mid1)}], "flags": ["c"]})                      # hash differs
+                steps.append({"put": [{"path": "sub/mid.yaml", "text": json.dumps(mid1)}], "flags": ["o"]})                      # config newer
+                steps.append({"flags": ["a"]})                                                                                  # generate-all
+                _, mid2, _ = cfgs(k, 1, keyalg="other-same-family", issuer_key=issuer_key)
+                steps.append({"put": [{"path": "sub/mid.yaml", "text": json.dumps(mid2)}], "flags": ["m", "c"]})                 # keyAlgorithm changed (same family)
+                _, mid3, _ = cfgs(k, 1, keyalg="other-family", issuer_key=issuer_key)
+                steps.append({"put": [{"path": "sub/mid.yaml", "text": json.dumps(mid3)}], "flags": ["m", "c"]})                 # keyAlgorithm changed (other family)
+                _, mid4, _ = cfgs(k, 2, keyalg="none", issuer_key=issuer_key)
+                steps.append({"put": [{"path": "sub/mid.yaml", "text": json.dumps(mid4)}], "flags": ["m", "c"]})                 # keyAlgorithm removed
+                ca2 = dict(ca, subject="CN=Key CA G2")
+                steps.append({"put": [{"path": "ca.yaml", "text": json.dumps(ca2)}], "flags": ["m", "c"]})                      # issuer regenerated -> mid and leaf follow
+                steps.append({"flags": ["m", "c"]})                                                                              # and a no-op
+                c["steps"] = steps
+                out.append(c)
+    # request-based leaves under each issuer type
+    for k in (["P-256", "P-384", "RSA-1024"] if ctx.quick else ["P-224", "P-256", "P-384", "P-521", "RSA-1024", "RSA-2048"]):
+        for issuer_key in ["P-256", "RSA-1024", "brainpoolP384r1"]:
+            ca = cfg("CN=Req CA", keyAlgorithm=issuer_key, signatureAlgorithm=sig_for(issuer_key))
+            leaf = cfg("CN=Requester v0", issuer="ca", signatureAlgorithm=sig_for(issuer_key))
+            c = case(len(out) + 1, [("ca.yaml", ca), ("leaf.yaml", leaf)], tag={"prop": "C14", "class": "csr %s under %s" % (k, issuer_key), "firstMustSucceed": True})
+            c["files"].append({"path": "leaf.pem", "make": {"kind": "csr", "key": k, "cn": "Requester"}})
+            leaf1 = dict(leaf, subject="CN=Requester v1")
+            c["steps"] = [{"flags": ["m", "c"]}, {"put": [{"path": "leaf.yaml", "text": json.dumps(leaf1)}], "flags": ["c"]}, {"flags": ["a"]},
+                          {"put": [{"path": "leaf.yaml", "text": json.dumps(dict(leaf1, keyAlgorithm="RSA-1024"))}], "flags": ["m", "c"]},
+                          {"put": [{"path": "ca.yaml", "text": json.dumps(dict(ca, subject="CN=Req CA G2"))}], "flags": ["m", "c"]}]
+            out.append(c)
+    return out
+
+
 def run(ctx, replay=None):
+    cs = sweep_cases(ctx)
+    obs, stats = genjudge.run_gen(ctx, cs, tag="k")
+    by_id = {c["id"]: c for c in cs}
+    slim = [{"id": o["id"], "hist": o["hist"], "tag": o["tag"], "result": o["result"]} for o in obs]
+    failed = ctx.judge("KeyJudge", slim, "c14", per_shard=60)
+    for o in obs:
+        for cl in failed.get(o["id"], []):
+            c = by_id[o["id"]]
+            ctx.violation("C14: %s: step %s, entity %s: %s" % (c["tag"]["class"], cl["step"], cl["alias"], cl["what"]),
+                          {"kind": "gen-history", "case": c, "what": cl["what"], "step": cl["step"], "alias": cl["alias"], "class": c["tag"]["class"]})
+    steps_run = sum(len(o["hist"]) - 1 for o in obs)
+    extra = {"sweep_histories": len(cs), "sweep_evaluations": steps_run, "sweep_failed_steps": sum(1 for o in obs for h in o["hist"] if h["result"] not in ("ok", "initial")),
+             "sweep": "key types x origins {gopki, standard PKCS#8 / hand-built brainpool PKCS#8, curve repeated inside ECPrivateKey, no AlgorithmIdentifier parameters, request} x "
+                      "8 regeneration steps (changed, newer, all, keyAlgorithm same family, other family, removed, issuer regenerated, no-op)"}
     inv = ["TypeInv", "KeyImpliesCert"]
     if ctx.quick:
         mc = [dict(shape="chain", max_env=2, invariants=inv, properties=["KeysKept"])]
@@ -15,4 +108,4 @@ def run(ctx, replay=None):
         ex = [dict(shape="chain", max_env=3, flags="m,c,o", extra="a", faults=False),
               dict(shape="star", max_env=2, flags="m,c,o", extra="a", faults=True),
               dict(shape="chain", max_env=0, flags="m,c,o,e", extra="a", faults=True, random_walks=3000, walk_len=12)]
-    return repo.run_lifecycle(ctx, "C14", mc, ex, "model_checking", ASSUME, replay)
+    return repo.run_lifecycle(ctx, "C14", mc, ex, "model_checking", ASSUME, replay, extra_cov=extra)
